@@ -53,6 +53,16 @@ Decided (shape of the code, all inputs):
   R17.m  optional attributes of a FunctionBuilder -- None unless the callable supplies them; read from the pinned boltons
          source: default factory ``lambda: None`` (module, varargs, varkw, defaults) -- are joined / concatenated /
          dereferenced on the render paths (the heading of the HTML table) only behind a presence test.
+  (vt/props/c17_total.py:)
+  R17.l  (kinds) "+", len(), indexing and list methods on the chunks a JSON / JSONP body is built from are applied only where
+         every operand is, on every path (streaming flag true / false), a materialised sequence of one kind -- a list, a
+         tuple -- never a lazy iterator (iterencode / a generator) and never two different kinds (TypeError => 500);
+  R17.n  the text classification is total: on the text branch of render_response, in the JSON guess and in every function the
+         text is handed on to, a call that is handed the text and is known to raise for some texts -- a finite table about
+         the library: JSON / literal parsers (ValueError *and* RecursionError: recursive descent on arbitrary text), number
+         conversions, base64 / hex decoders, re.compile of the text, .decode() / .encode() with a partial codec -- lies under
+         a handler that catches every class it can raise and does not raise itself.  Noted, not judged: a guess that
+         answers "JSON" only after a successful parse makes the label depend on the parser's size limits.
 Nothing is decided by running clastic code: paths are enumerated symbolically over the abstract results
 {non-empty str, non-empty bytes, '', b'', Sized non-text, unsized}; kinds of encoded objects over {instance, plain class,
 class with a metaclass}.
@@ -243,13 +253,24 @@ def _replace_node(expr, old, new):
     return rec(expr)
 
 
-def sym_paths(fi, decide, limit=2048, fold=None, resolve=None):
+def is_raises_atom(atom):
+    """The free atom ``sym_paths(model_try=True)`` puts on the paths of a try statement: "the body raised into this
+    handler" (true on the handler's path) / "the body raised" (false on the path on which it completed)."""
+    return isinstance(atom, ast.Name) and atom.id.startswith('<') and ' raises' in atom.id
+
+
+def sym_paths(fi, decide, limit=2048, fold=None, resolve=None, model_try=False):
     """Enumerate the paths of an acyclic function body symbolically.  ``decide(atom)`` -> True / False / None for a
     test atom whose locals were substituted by their values; None = free (both outcomes are followed).
     ``resolve(call)`` -> FuncInfo of a callee whose body is to be followed (its paths are spliced in, parameters bound
     to the argument expressions) or None (the call stays an opaque expression).  Loops, try and with statements are
-    outside the modelled subset (AnalysisError; a callee using them is simply not followed)."""
+    outside the modelled subset (AnalysisError; a callee using them is simply not followed).
+    ``model_try``: a ``try`` is followed as "the body completes (then else / finally)" plus, per handler, "the body raised
+    into it" -- the locals the body binds are unknown there, the tests the body made are forgotten -- each marked by a free
+    atom (``is_raises_atom``); whether the body *can* raise that class, and what escapes every handler, is not decided
+    here.  A ``finally`` that returns / raises stays outside the subset."""
     ident = lambda x: x
+    try_n = [0]
     fold_ = fold or ident
     opaque_calls = set()
     depth = [0]
@@ -462,6 +483,25 @@ def sym_paths(fi, decide, limit=2048, fold=None, resolve=None):
             for s2, r in split(s.test, st):
                 out.extend(run_block(s.body if r else s.orelse, [s2]))
             return out
+        if isinstance(s, ast.Try) and model_try and not any(
+                isinstance(n, (ast.Return, ast.Raise, ast.Break, ast.Continue)) for x in s.finalbody for n in ast.walk(x)):
+            try_n[0] += 1
+            calls = [n for x in s.body for n in ast.walk(x) if isinstance(n, ast.Call)]
+            label = short(norm(calls[0]), 40) if calls else 'the try body at line %s' % s.lineno
+            bound = set(n.id for x in s.body for n in ast.walk(x) if isinstance(n, ast.Name) and isinstance(n.ctx, ast.Store))
+            out = []
+            for h in s.handlers:
+                sh = st.fork()
+                for name in sorted(bound | ({h.name} if h.name else set())):
+                    sh.env[name] = _opaque(name)
+                atom = ast.Name(id='<%s raises %s #%d>' % (label, norm(h.type) if h.type is not None else 'anything', try_n[0]),
+                                ctx=ast.Load())
+                sh.trace.append((norm(atom), atom, s, True, False))
+                out.extend(run_block(list(h.body) + list(s.finalbody), [sh]))
+            atom = ast.Name(id='<%s raises #%d>' % (label, try_n[0]), ctx=ast.Load())
+            st.trace.append((norm(atom), atom, s, False, False))
+            out.extend(run_block(list(s.body) + list(s.orelse) + list(s.finalbody), [st]))
+            return out
         raise AnalysisError('%s: statement %s is outside the modelled subset of the path enumeration'
                             % (fi.qualname, type(s).__name__))
 
@@ -472,7 +512,12 @@ def sym_paths(fi, decide, limit=2048, fold=None, resolve=None):
     return out
 
 
-def follow_resolver(repo, fi, keep=()):
+def follow_resolver_any(repo, fi):
+    """Like follow_resolver, generator functions included (for analyses that read the callee instead of splicing it)."""
+    return follow_resolver(repo, fi, generators=True)
+
+
+def follow_resolver(repo, fi, keep=(), generators=False):
     """resolve(call) for sym_paths: plain functions / methods of the analysed tree named directly (f(..), self.m(..),
     cls.m(..), Class.m(..)); names in ``keep`` stay opaque."""
     def resolve(call):
@@ -501,7 +546,7 @@ def follow_resolver(repo, fi, keep=()):
         if any(isinstance(d, ast.Name) and d.id == 'property' for d in m.node.decorator_list):
             return None
         for n in ast.walk(m.node):
-            if isinstance(n, (ast.Yield, ast.YieldFrom, ast.Await)):
+            if isinstance(n, (ast.Yield, ast.YieldFrom, ast.Await)) and not generators:
                 return None
         return m
     return resolve
@@ -1331,7 +1376,8 @@ def run(rep):
                'R17.h no per-request state on the shared renderers; R17.i 200 status, returns on every path, raises only for an '
                'explicit unknown format; R17.k provenance / precedence of the negotiated mime; R17.l JSON bodies come from the '
                'renderer\'s own encoder applied to the endpoint result, JSONP padding, re-chunkers keep the order; R17.m optional '
-               'FunctionBuilder attributes are used as text only behind a presence test')
+               'FunctionBuilder attributes are used as text only behind a presence test; R17.n the text classification is total: '
+               'calls handed the text that can raise for some texts are under a handler for every class they raise')
     rep.decline('JSON validity and round trip of the stdlib encoder\'s output, HTML table shapes (third-party Table), the answer of '
                 'best_match for a given Accept header (values of third-party code)')
     rep.assume('request.args / accept_mimetypes behave as in werkzeug 1.0.1')
@@ -1407,6 +1453,17 @@ def run(rep):
         # label feasibility is decided from the shape of the function (path conditions of each ``return True``);
         # the function is never evaluated on sample bodies
         _gj_structural(rep, repo, simple, gj, bnames, 'shape')
+
+    def g_text_total():
+        # ---- R17.n (vt/props/c17_total.py) -------------------------------------
+        import sys
+        from . import c17_total
+        rr = simple.func('BasicRender.render_response')
+        rr_params = [p for p in rr.params() if p not in ('self', 'cls')]
+        if not rr_params:
+            raise AnalysisError('BasicRender.render_response takes no endpoint result')
+        gj = simple.functions.get('BasicRender._guess_json') or simple.functions.get('_guess_json') or _guess_by_role(repo, simple, rr)
+        c17_total.check_text_total(rep, repo, sys.modules[__name__], rr, 'context' if 'context' in rr_params else rr_params[0], gj)
 
     def g_render():
         rr, ctx_param, paths = get_rr()
@@ -1908,6 +1965,15 @@ def run(rep):
         from . import c17_more
         c17_more.check_json_bodies(rep, repo, sys.modules[__name__])
 
+    def g_chunk_kinds():
+        # a group of its own: the kinds are judged also where the provenance of the stream cannot be followed
+        import sys
+        from . import c17_total
+        rep.rule('R17.l', 'every JSON body (streaming, non-streaming, inside JSONP) is self.json_encoder applied to the endpoint result; '
+                          'a JSONP body is callback + "(" + JSON + ")" and is built only when the request names a callback; "+" / len() / '
+                          'indexing on the body chunks only where every operand is a materialised sequence of one kind on every path')
+        c17_total.check_chunk_kinds(rep, repo, sys.modules[__name__])
+
     def g_optional_labels():
         import sys
         from . import c17_more
@@ -1928,7 +1994,7 @@ def run(rep):
                                     % (fn.__name__, type(e).__name__, e, tb.filename.rpartition('/')[2], tb.lineno))
         group.__name__ = fn.__name__
         return group
-    for g in (g_names, g_guess, g_render, g_serialize, g_encoder, g_labels, g_templates, g_kinds, g_shared, g_total, g_negotiation, g_json_bodies, g_optional_labels):
+    for g in (g_names, g_guess, g_text_total, g_render, g_serialize, g_encoder, g_labels, g_templates, g_kinds, g_shared, g_total, g_negotiation, g_json_bodies, g_chunk_kinds, g_optional_labels):
         rep.guard(safely(g))
     # floors are checked after all groups ran, so that one unrecognised construct does not hide the others
     for rule_, n_ in (('R17.c', 9),):
@@ -2243,7 +2309,9 @@ class _GuessShape(object):
 
     # -- atoms
     def interp(self, a):
-        """('len', (truth for length 0, 1, >= 2)) | ('gen', [partial assignments]) | ('const', bool) | None."""
+        """('len', (truth for length 0, 1, >= 2)) | ('gen', [partial assignments]) | ('const', bool) | ('free',) | None."""
+        if is_raises_atom(a):
+            return ('free',)        # whether a call made in a try body raises: either outcome, for any input
         t = self.term(a)
         if t is not None:
             if t[0] in ('param', 'first', 'last'):
@@ -2435,6 +2503,14 @@ def _unroll_const_loops(shape, fnode, limit=16):
     return fn
 
 
+def _contained(fi, node, exc):
+    """node lies in a try body of the function whose handler for the builtin exception ``exc`` does not raise: the empty
+    input's IndexError continues in the handler (a path the enumeration follows) instead of leaving the function."""
+    from .common import protected_by
+    h = protected_by(fi, node, exc)
+    return h is not None and not any(isinstance(x, ast.Raise) for x in ast.walk(h))
+
+
 def _gj_structural(rep, repo, simple, gj, bnames, why):
     """Label feasibility of _guess_json by shape: a body is guessed to be JSON exactly when its first and last byte form
     one of the two matching bracket pairs, and the empty input is rejected without touching an element.  Branching on
@@ -2446,7 +2522,7 @@ def _gj_structural(rep, repo, simple, gj, bnames, why):
     shape = _GuessShape(repo, gj, param)
     view = _FnView(gj, _unroll_const_loops(shape, gj.node))
     try:
-        paths = sym_paths(view, lambda atom: None)
+        paths = sym_paths(view, lambda atom: None, model_try=True)
     except AnalysisError as e:
         raise AnalysisError('_guess_json has a shape the analysis cannot follow (%s; %s)' % (why, e))
 
@@ -2472,7 +2548,7 @@ def _gj_structural(rep, repo, simple, gj, bnames, why):
             continue
         stmt = st.term[2]
         if id(stmt) not in rets:
-            rets[id(stmt)] = {'stmt': stmt, 'pts': set(), 'unbounded': False, 'conds': None, 'conds_pts': False}
+            rets[id(stmt)] = {'stmt': stmt, 'pts': set(), 'unbounded': False, 'conds': None, 'conds_pts': False, 'needs': set()}
             order.append(id(stmt))
         ent = rets[id(stmt)]
         for c1 in trace:
@@ -2484,6 +2560,8 @@ def _gj_structural(rep, repo, simple, gj, bnames, why):
                     continue
                 ent['pts'] |= pts
                 ent['unbounded'] = ent['unbounded'] or unb
+                if pts or unb:
+                    ent['needs'].update(a.id.strip('<>').partition(' raises')[0] for a, p in conj if is_raises_atom(a) and p is False)
                 if ent['conds'] is None or ((pts or unb) and not ent['conds_pts']):
                     ent['conds'], ent['conds_pts'] = conj, bool(pts or unb)     # the conditions quoted in the verdict
     if unknown:
@@ -2515,6 +2593,13 @@ def _gj_structural(rep, repo, simple, gj, bnames, why):
                               % (what, sorted(pairs - _WANT_PAIRS), cs))
         else:
             ok, msg = True, 'guarded by first/last byte pair %s (conditions: %s)' % (', '.join(repr(p) for p in sorted(pairs)), cs)
+        if ent['needs']:
+            # noted, not judged: C17 asks for the bracket shape only; what the library call accepts is a value-level question
+            extra = ('the answer "JSON" additionally requires that %s completes without raising: a parse can fail for reasons that '
+                     'have nothing to do with the text being JSON-like (size limits of the parser: nesting depth, integer literals '
+                     'over 4300 digits), and serialized JSON it rejects is then labelled text/plain' % ' / '.join(sorted(ent['needs'])))
+            rep.notes.append('R17.b note (%s, line %s): %s' % (gj.qualname, r.lineno, extra))
+            msg += ' [note, not judged: %s]' % extra
         seen_pairs |= pairs & _WANT_PAIRS
         rep.check('R17.b', fkey(gj, ('return True #%d' if literal else 'accepting return #%d') % (n + 1)), ok, msg, simple, r)
     rep.check('R17.b', fkey(gj, 'bracket pairs'), seen_pairs == set(_WANT_PAIRS),
@@ -2536,7 +2621,7 @@ def _gj_structural(rep, repo, simple, gj, bnames, why):
                 elif isinstance(par, ast.IfExp) and cur is not par.test:
                     guards.append((par.test, cur is par.body))
                 cur = par
-            if not any(shape.excludes_empty(t, p) for t, p in guards):
+            if not any(shape.excludes_empty(t, p) for t, p in guards) and not _contained(gj, n, 'IndexError'):
                 unguarded.append(n)
     ok = not accepts_empty and not unguarded and not raise_at_empty
     if ok:
